@@ -245,6 +245,18 @@ theorem learn_contract (n : Network α) (inputs targets : List (Tensor α))
         | none => simp [stopAfter] at this
         | some v => simpa [stopAfter] using this
 
+/-- **a second run on the network a first run left behind obeys the same contract** — whatever the first run did (stopped
+    early or not, with or without validation data, any budget): the network value `learn` returns is all that is carried
+    over, and the contract holds for every network -/
+theorem second_run_contract (n : Network α) (i1 t1 i2 t2 : List (Tensor α))
+    (v1 v2 : Option (List (Tensor α) × List (Tensor α) × Nat)) (b1 e1 b2 e2 : Nat) (s1 s2 : List α) (r1 r2 : LearnResult α)
+    (_h1 : n.learn i1 t1 v1 b1 e1 s1 = .ok r1) (h2 : r1.net.learn i2 t2 v2 b2 e2 s2 = .ok r2) :
+    ∃ k, k ≤ e2 ∧ r2.trainLoss.length = k ∧
+      (v2.isSome → r2.valLoss.length = k ∧ r2.valAcc.length = k) ∧
+      (v2.isNone → r2.valLoss = [] ∧ r2.valAcc = [] ∧ k = e2) ∧
+      (k < e2 → stopAfter v2 k { r2 with net := r2.net } = .ok true) :=
+  learn_contract r1.net i2 t2 v2 b2 e2 s2 r2 h2
+
 /-! non-vacuity: rising, falling and plateau windows -/
 example : increasingNewestFirst ([3, 2, 1] : List ℝ) = true := by
   rw [increasing_iff]; simp only [StrictlyRising]; norm_num
